@@ -70,6 +70,8 @@ func propC07(c *Ctx) string {
 	c07RelTerm(c, v)
 	c07DelOrder(c, v)
 	c07ReqTokens(c, v, "C07")
+	// the Incoming store of a resumed session is what makes a retransmitted PUBREL find its PUBLISH
+	c08Setup(c, v)
 
 	c.NotDecide("arbitrary interleavings of retransmitted PUBLISH/PUBREL with connection failures (schedules, crash points)",
 		"custom Backend implementations that acknowledge late or from another goroutine: only the closure contents and MemoryBackend.Publish are decided",
